@@ -5,6 +5,7 @@ from hypothesis import strategies as st
 from vlib import strat as S, oracles as O
 
 ID = "C01"
+SWITCH_OFF = 6        # every 6th case runs with xfab.CHECKS switched off (results must not depend on it)
 TARGETED = True     # thorough tier uses hypothesis.target on the residual/tolerance ratios
 RULE = ("Hypothesis: cells over the whole domain Gram>=0.02 (general / strongly oblique / Gram-boundary / "
         "conforming families), hkl in [-30,30]^3\\0, module in {tools, laue}; oracle = metric tensor from its "
